@@ -140,3 +140,10 @@ Definition lj_enclosures (blocks : list block) (o : obs) :=
   let ys := map (fun l => map ptI (unsome l)) (o_xp o) in
   let bw := combI_bwd prec ulps (rev (zip3 blocks ys (map ptI (o_aux o)))) I.zero in
   (I.output true (snd fw), I.output true (snd bw)).
+
+(* ---- prime priors: reported x_prime_log_prior minus the enclosure of "log p(x) - log_J" at the exact inputs;
+   a separated pair of rows proves that the difference is not one constant per configuration *)
+Definition check_prime_prior (e : expr) (rows : list (list dy * fl)) : list nat :=
+  offset_witness (map (fun r => offs (snd r) (evalI prec ulps (map ptI (fst r)) e)) rows).
+Definition prime_prior_enclosures (e : expr) (rows : list (list dy * fl)) :=
+  map (fun r => I.output true (evalI prec ulps (map ptI (fst r)) e)) rows.
